@@ -1,6 +1,7 @@
 import functools
 import re
 
+from xsdata.exceptions import SerializerError
 from xsdata.models.enums import Namespace
 from xsdata.utils import text
 
@@ -54,6 +55,7 @@ def clean_prefixes(ns_map: dict) -> dict:
         if ns:
             prefix = prefix or None
             if prefix not in result:
+                validate_prefix(prefix, ns)
                 result[prefix] = ns
 
     default_ns = result.get(None)
@@ -61,6 +63,24 @@ def clean_prefixes(ns_map: dict) -> dict:
         result.pop(None)
 
     return result
+
+
+def validate_prefix(prefix: str | None, uri: str) -> None:
+    """Validate a user prefix can be declared for the uri in a xml document.
+
+    Raises:
+        SerializerError: If the prefix is not a valid NCName, or it's one of the
+            reserved xml/xmlns prefixes bound to anything but their own namespace.
+    """
+    if prefix is None:
+        return
+
+    if (
+        not is_ncname(prefix)
+        or prefix == "xmlns"
+        or (prefix == "xml") != (uri == Namespace.XML.uri)
+    ):
+        raise SerializerError(f"Invalid namespace prefix `{prefix}` for `{uri}`")
 
 
 def clean_uri(namespace: str) -> str:
